@@ -605,7 +605,7 @@ pub fn input_plugins(p: &CfgParams) -> BoxedStrategy<Vec<InputPlugin>> {
     let default = rewrite.prop_map(|rewrite| InputPlugin::Default { rewrite });
     let psm = (
         prop::sample::subsequence(vec!['ー', '-', '⁓', '〜', '〰', '~', ']', '^', '\\', '[', '&'], 1..=5),
-        prop::option::of(select(vec!["ー".to_string(), "-".to_string(), "ーー".to_string(), "x".to_string()])),
+        prop::option::of(select(vec!["ー".to_string(), "-".to_string(), "ーー".to_string(), "x".to_string(), "".to_string(), "-ー".to_string()])),
     )
         .prop_map(|(marks, replacement)| InputPlugin::Psm { marks, replacement });
     let yomi = (
@@ -653,7 +653,8 @@ pub fn oov_plugins(p: &CfgParams, nl: u16, nr: u16) -> BoxedStrategy<Vec<OovPlug
         id(nr),
         costs(),
         select(vec!["[a-z]+[0-9]*", "[0-9a-z-]+", "[ア-ン]+", ".", "[a-z0-9]{2,4}", "(?:ab|a)+", "a?", "[0-9]*"]),
-        prop::option::of(1usize..40),
+        // the optional maxLength setting: ordinary values and the ends of its type (it is an unsigned word)
+        prop::option::of(prop_oneof![8 => 1usize..40, 1 => select(vec![0usize, 1, 63, 64, 65, 1 << 32, usize::MAX / 2, usize::MAX - 1, usize::MAX])]),
         prop::option::of(any::<bool>()),
     )
         .prop_map(|(l, r, c, re, max_length, strict)| OovPlugin::Regex {
